@@ -28,7 +28,7 @@ ASSUMPTIONS = [
     "if the implementation stopped drawing through jax.random.normal the check falls back to fixed-key statistics (6 standard errors, n=2e5) and says so in the counters",
     "real-valued parameters on the finite catalogue + VERIF_SEED-indexed generic reals only; R,D,n<=3 (thorough 4)",
 ]
-BOUNDS = {"quick": dict(R=[1, 2, 3], D=[1, 2, 3], n=[1, 2, 3]), "thorough": dict(R=[1, 2, 3, 4], D=[1, 2, 3, 4], n=[1, 2, 3, 4])}
+BOUNDS = {"quick": dict(R=[1, 2, 3], D=[1, 2, 3], n=[1, 2, 3]), "thorough": dict(R=[1, 2, 3, 4, 5], D=[1, 2, 3, 4, 5], n=[1, 2, 3, 4, 5])}
 BUDGET = {"quick": 600, "thorough": 3600}
 
 
